@@ -13,8 +13,8 @@ ID = "C18"
 #: Gen/C18.lean and compared with the literal in Properties/C18.lean (`modelled_functions_have_the_transcribed_shape`)
 SHAPES = [
     ("shapeCorrelations", "mlinsights/metrics/correlations.py", "non_linear_correlations"),
-    ("shapeComparableMetric", "mlinsights/metrics/scoring_metrics.py", "comparable_metric"),
-    ("shapeR2Comparable", "mlinsights/metrics/scoring_metrics.py", "r2_score_comparable"),
+    ("shapeComparableMetric", "mlinsights/metrics/scoring_metrics.py", "comparable_metric", "full"),
+    ("shapeR2Comparable", "mlinsights/metrics/scoring_metrics.py", "r2_score_comparable", "full"),
 ]
 SRC_COR = "mlinsights/metrics/correlations.py"
 SRC_MET = "mlinsights/metrics/scoring_metrics.py"
@@ -836,6 +836,20 @@ def _check_r2(cfg):
             elif not (got == want or abs(got - want) <= 1e-12 * max(1.0, abs(want))):
                 bad.append(("r2:value:%s:%s" % (ta, ia), "r2_score_comparable(y, p, tr=%s, inv_tr=%s) != r2_score(tr(y), inv_tr(p))"
                             % (ta, ia), got, want))
+    # several targets per row (a table): the plain call is still r2_score of the transformed tables (its defaults)
+    if n >= 4 and not cfg.get("weights"):
+        Y = numpy.column_stack([y, y[::-1] * 7.0 + 1.0, (y + 0.3) ** 2])
+        P = numpy.column_stack([p, p[::-1] * 7.0 + 2.0, (p + 0.1) ** 2])
+        for ta, (targ, tf) in (("log", ("log", numpy.log)), ("sqrt", (numpy.sqrt, numpy.sqrt))):
+            try:
+                got = r2_score_comparable(Y, P, tr=targ, inv_tr=targ)
+                want = r2_score(tf(Y), tf(P))
+                if not (got == want or abs(got - want) <= 1e-12 * max(1.0, abs(want))):
+                    bad.append(("r2:value:%s:%s:table-of-targets" % (ta, ta), "r2_score_comparable(Y, P, tr=%s, inv_tr=%s) != "
+                                "r2_score(tr(Y), inv_tr(P)) for targets with several columns" % (ta, ta), got, want))
+            except Exception as e:  # noqa: BLE001
+                bad.append(("r2:raises", "r2_score_comparable raises %s on a table of targets" % type(e).__name__,
+                            "%s: %s" % (type(e).__name__, e), "the value of r2_score"))
     try:
         r2_score_comparable(y, p)
         bad.append(("r2:both-missing-accepted", "r2_score_comparable(y, p) with both transformations missing is accepted",
